@@ -149,8 +149,28 @@ def coq_make(targets=None, timeout=3000):
         return rc == 0, (out + err)[-6000:]
 
 
+def property_files(cid):
+    """Properties/Cxx.v plus supplementary statement files Properties/Cxx_<part>.v (theorems that are derived FROM those of Cxx.v, e.g. their
+    transfer to other number types, cannot live in Cxx.v itself)."""
+    import glob
+    extra = sorted(os.path.basename(f)[:-2] for f in glob.glob(os.path.join(COQ, "Properties", f"{cid}_*.v")))
+    return [cid] + extra
+
+
 def compile_properties(cid):
-    """(Re)compile Properties/Cxx.v, return dict: theorem -> list of axioms, plus raw log."""
+    """(Re)compile Properties/Cxx.v (and Cxx_*.v), return dict: theorem -> list of axioms, plus raw log."""
+    res, names, raw = {}, [], ""
+    for stem in property_files(cid):
+        r1, n1, raw1 = _compile_property_file(stem)
+        names += n1
+        raw += raw1
+        if r1 is None:
+            return None, names, raw1
+        res.update(r1)
+    return res, names, raw
+
+
+def _compile_property_file(cid):
     path = os.path.join(COQ, "Properties", f"{cid}.v")
     src = strip_comments(open(path).read())
     names = re.findall(r"Print\s+Assumptions\s+([A-Za-z0-9_'.]+)\s*\.", src)
@@ -176,7 +196,8 @@ def coqchk_axioms(cid, timeout=2400):
     """Independent re-check of Properties/Cxx.vo and everything it depends on with coqchk -o.
     Returns (ok, axioms, detail)."""
     with BuildLock():
-        rc, out, err = sh(f"coqchk -silent -o -Q . SK SK.Properties.{cid}", cwd=COQ, timeout=timeout)
+        mods = " ".join(f"SK.Properties.{stem}" for stem in property_files(cid))
+        rc, out, err = sh(f"coqchk -silent -o -Q . SK {mods}", cwd=COQ, timeout=timeout)
     txt = out + err
     if rc != 0:
         return False, [], txt[-1500:]
@@ -194,10 +215,29 @@ def coqchk_axioms(cid, timeout=2400):
     return (not bad and not unsafe), axs, ("non-allowed axioms " + str(bad) if bad else "") + (" ".join(unsafe))
 
 
+def _stdlib_primitive_names(_cache={}):
+    """Names the STANDARD LIBRARY itself declares for primitive floats / 63-bit integers (Primitive ...) and the axioms it states about them
+    (FloatAxioms.v, Uint63.v).  Print Assumptions prints them with the shortest unambiguous name, often without the module prefix.
+    Our own development declares nothing (forbidden_gate), so a bare name from this list can only be the standard library's."""
+    if "names" not in _cache:
+        names = set()
+        root = "/usr/lib/ocaml/coq/theories"
+        for rel in ("Floats/PrimFloat.v", "Floats/FloatAxioms.v", "Numbers/Cyclic/Int63/PrimInt63.v", "Numbers/Cyclic/Int63/Uint63.v"):
+            try:
+                src = strip_comments(open(os.path.join(root, rel)).read())
+            except OSError:
+                continue
+            names |= set(re.findall(r"(?m)^\s*(?:Primitive|Axiom)\s+([A-Za-z_][A-Za-z0-9_']*)", src))
+        _cache["names"] = names
+    return _cache["names"]
+
+
 def axioms_ok(axs):
     bad = []
     for a in axs:
         if a in ALLOWED_AXIOMS or a.startswith(ALLOWED_PRIMITIVE_PREFIXES):
+            continue
+        if "." not in a and a in _stdlib_primitive_names():
             continue
         bad.append(a)
     return bad
@@ -418,7 +458,7 @@ def run_check(cid, tier, seed):
     gen_ok, gen_msg = regenerate_gen()
     if not gen_ok:
         theorem_fail.append({"obligation": "translator (Gen/*.v regeneration)", "detail": gen_msg})
-    targets = [f"Properties/{cid}.vo"] + list(info.get("extra_targets", []))
+    targets = [f"Properties/{stem}.vo" for stem in property_files(cid)] + list(info.get("extra_targets", []))
     ok, blog = coq_make(targets)
     if not ok:
         theorem_fail.append({"obligation": f"coq build of {targets}", "detail": blog[-3000:]})
